@@ -76,7 +76,7 @@ type builder struct {
 }
 
 func (b *builder) add(kind string, lines []string, noModel bool) {
-	b.cases = append(b.cases, hxlib.Case{Lines: lines, Kind: kind, NonTrivial: hasPanic(lines), NoModel: noModel})
+	b.cases = append(b.cases, hxlib.Case{Lines: lines, Kind: kind, NonTrivial: kind != "malformed" && hasPanic(lines), NoModel: noModel})
 }
 
 // prologue: bring the modules up; `settle` before the first reading because Start() may return before the
@@ -574,7 +574,7 @@ func generate(r *hxlib.Run, emit func(hxlib.Case)) {
 		}
 	}
 	// healthy and stop-panicking modules in dependency graphs
-	for i := r.Budget(60, 600); i > 0; i-- {
+	for i := r.Budget(60, 2000); i > 0; i-- {
 		tok := "ok"
 		if rng.Intn(4) > 0 {
 			tok = "p:" + mainPVs[rng.Intn(len(mainPVs))]
@@ -583,22 +583,22 @@ func generate(r *hxlib.Run, emit func(hxlib.Case)) {
 		b.lifecycleCell("stop", tok, n, rng.Intn(n), true)
 	}
 	// 3. management passes, 4. items ending at module stop, 5. random scenarios, 6. bursts, 7. malformed ops
-	for i := r.Budget(120, 1500); i > 0; i-- {
+	for i := r.Budget(120, 3000); i > 0; i-- {
 		b.mgmtCase()
 	}
-	for i := r.Budget(150, 2000); i > 0; i-- {
+	for i := r.Budget(150, 5000); i > 0; i-- {
 		b.onstopCase()
 	}
-	for i := r.Budget(150, 2000); i > 0; i-- {
+	for i := r.Budget(150, 5000); i > 0; i-- {
 		b.restartCase()
 	}
-	for i := r.Budget(400, 12000); i > 0; i-- {
+	for i := r.Budget(400, 30000); i > 0; i-- {
 		b.randomCase(i%5 == 0)
 	}
-	for i := r.Budget(300, 6000); i > 0; i-- {
+	for i := r.Budget(300, 15000); i > 0; i-- {
 		b.burstCase(i%5 == 0)
 	}
-	for i := r.Budget(150, 1500); i > 0; i-- {
+	for i := r.Budget(150, 3000); i > 0; i-- {
 		b.malformedCase()
 	}
 
